@@ -66,9 +66,9 @@ class C03(Property):
         'integer-dtype numpy arrays and unit-carrying (quantities) concentrations / rate constants give the same values: oracle only',
         'array-valued (batched, mutable) concentrations: per-element equality, unmodified inputs and alias-free results are oracle only',
         'rates(..., ratexs=l): zip() drops the reactions beyond len(l) (modelled as sysRatesRatexs = sysRates on rs.take n); no theorem',
-        'law_of_mass_action_rates with the DEFAULT variables=None and a MassAction parameter raises AttributeError, and the literal '
-        'dCdt_list(rsys, law_of_mass_action_rates(c, rsys)) raises TypeError (generator): both mirrored by the model '
-        '(lawOfMassActionRatesDefaultVars, dCdtListOfGenerator) and tied by correspondence; array_path_eq_dict_path is about list(...)',
+        'law_of_mass_action_rates with the DEFAULT variables=None and the literal dCdt_list(rsys, law_of_mass_action_rates(c, rsys)) '
+        '(both repaired in /repo 4a92d03; model lawOfMassActionRatesDefaultVars / dCdtListOfGenerator): correspondence and oracle, '
+        'array_path_eq_dict_path is stated for the list of rates',
         'error agreement of the array path (ValueError for an unknown reactant, IndexError for a short conc/rates): modelled, '
         'correspondence only',
     )
@@ -232,7 +232,7 @@ class C03(Property):
         m2 = rng.random()
         if m2 < 0.15:
             c['variables_none'] = True           # the DEFAULT variables=None of law_of_mass_action_rates
-        elif m2 < 0.3:
+        elif m2 < 0.3 and not c['int_keys']:     # (integer-keyed reactions have no net stoichiometry over the named substances)
             c['as_generator'] = True             # the literal dCdt_list(rsys, law_of_mass_action_rates(c, rsys)): a generator is not subscriptable
         return c
 
@@ -612,18 +612,6 @@ class C03(Property):
         if not well:
             return None                      # malformed stream: decided by the correspondence
         conc = dict(zip(c['keys'], map(kg.frac, c['conc'])))
-        if c.get('as_generator'):
-            # the literal composite of the property text: a generator cannot be subscripted (TypeError) unless a loop is empty
-            try:
-                got = self._law_kinds_run(c)
-            except TypeError:
-                return None if c['keys'] and c['rxns'] else 'dCdt_list(<generator>) raised TypeError without subscripting'
-            except Exception as e:
-                return 'dCdt_list(<generator>) raised %s' % exc_name(e)
-            return None if not (c['keys'] and c['rxns']) and [kg.to_frac(x) for x in got] == [0] * len(c['keys']) else \
-                'dCdt_list(rsys, <generator>) returned %s' % (got,)
-        if c.get('variables_none') and any(x.get('pform') == 'massaction' for x in c['rxns']):
-            return None      # AttributeError on the documented default (mirrored by the model; reported to the coordinator)
         try:
             got = [kg.to_frac(x) for x in self._law_kinds_run(c)]
         except ValueError:
@@ -633,8 +621,14 @@ class C03(Property):
         if any(x.get('pform') == 'other' for x in c['rxns']):
             return 'a rate expression that is not of mass-action type was not refused'
         want = [kg.rate_of(dict(x, pform='plain'), conc) for x in c['rxns']]
+        if c.get('as_generator'):
+            # the literal expression of the property text: dCdt_list(rsys, law_of_mass_action_rates(c, rsys)) = N^T r
+            want = [sum(kg.net_of(x, k) * r for x, r in zip(c['rxns'], want)) for k in c['keys']]
+            if c['int_keys']:
+                return None          # integer-keyed reactions have no net stoichiometry over the named substances (documented)
         if got != want:
-            return 'law_of_mass_action_rates%s gives %s, k*prod(c^nu) = %s' % (' (species given by index)' if c['int_keys'] else '', got, want)
+            return '%s%s gives %s, expected %s' % ('dCdt_list(rsys, law_of_mass_action_rates(...))' if c.get('as_generator') else
+                                                  'law_of_mass_action_rates', ' (species given by index)' if c['int_keys'] else '', got, want)
         return None
 
     def _oracle_from_string(self, c):
